@@ -38,10 +38,25 @@ def recheck(name):
     assert rc == 0, out
 
     try:
-        rc, out = sh(['git', '-C', wt, 'apply', os.path.join(d, 'patch.diff')])
+        patch = os.path.join(d, 'patch.diff')
+        rc, out = sh(['git', '-C', wt, 'apply', patch])
 
         if rc != 0:
-            return name, 'PATCH DOES NOT APPLY', {}
+            # the context moved because of a later fix: commit in /repo
+            rc, out = sh(['git', '-C', wt, 'apply', '--3way', patch])
+
+            if rc != 0:
+                return name, 'PATCH DOES NOT APPLY', {}
+
+            sh(['git', '-C', wt, 'reset', '-q'])
+            rc, rebased = sh(['git', '-C', wt, 'diff'])
+
+            with open(patch, 'w') as fp:
+                fp.write(rebased)
+
+            meta['applied_with'] = ('git apply --3way (context moved by '
+                                    'later fix: commits); patch.diff '
+                                    're-generated against HEAD')
 
         rc, out = sh('cd %s && /venv/bin/python -m pytest -q -p '
                      'no:cacheprovider 2>&1 | tail -1' % wt)
